@@ -48,7 +48,7 @@ var fnWhitelist = map[string][]string{
 		"Info.Validate", "Export.Validate", "isContainedIn", "Exports.Validate", "Exports.HasExportContainingSubject", "Mapping.Validate",
 		"CreateValidationResults", "ResponsePermission.Validate", "Permissions.Validate",
 		"OperatorLimits.IsEmpty", "OperatorLimits.Validate", "ExternalAuthorization.Validate",
-		"UserScope.Validate", "SigningKeys.Validate", "Account.Validate", "AccountClaims.Validate", "GenericClaims.Validate", "AuthorizationRequestClaims.Validate", "AuthorizationResponseClaims.Validate", "TimeRange.Validate", "Limits.Validate", "User.Validate", "UserClaims.Validate", "ParseServerVersion", "Operator.validateAccountServerURL", "ValidateOperatorServiceURL", "Operator.validateOperatorServiceURLs", "Operator.Validate", "OperatorClaims.Validate", "OperatorClaims.ExpectedPrefixes", "AccountClaims.ExpectedPrefixes", "UserClaims.ExpectedPrefixes", "ActivationClaims.ExpectedPrefixes", "AuthorizationRequestClaims.ExpectedPrefixes", "AuthorizationResponseClaims.ExpectedPrefixes", "GenericClaims.ExpectedPrefixes", "loadClaims", "ClaimsData.verify", "parseHeaders", "Decode", "v1OperatorClaims.migrateV1", "v1UserClaims.migrateV1", "v1ActivationClaims.migrateV1", "SigningKeys.Add", "v1AccountClaims.migrateV1", "UserClaims.Encode", "ActivationClaims.Encode", "OperatorClaims.Encode", "AccountClaims.Encode", "GenericClaims.Encode", "AuthorizationRequestClaims.Encode", "AuthorizationResponseClaims.Encode", "OperatorClaims.updateVersion", "AccountClaims.updateVersion", "UserClaims.updateVersion", "ActivationClaims.updateVersion", "AuthorizationRequestClaims.updateVersion", "AuthorizationResponseClaims.updateVersion", "DecodeOperatorClaims", "DecodeAccountClaims", "DecodeUserClaims", "DecodeAuthorizationRequestClaims", "DecodeAuthorizationResponseClaims",
+		"UserScope.Validate", "SigningKeys.Validate", "Account.Validate", "AccountClaims.Validate", "GenericClaims.Validate", "AuthorizationRequestClaims.Validate", "AuthorizationResponseClaims.Validate", "TimeRange.Validate", "Limits.Validate", "User.Validate", "UserClaims.Validate", "ParseServerVersion", "Operator.validateAccountServerURL", "ValidateOperatorServiceURL", "Operator.validateOperatorServiceURLs", "Operator.Validate", "OperatorClaims.Validate", "OperatorClaims.ExpectedPrefixes", "AccountClaims.ExpectedPrefixes", "UserClaims.ExpectedPrefixes", "ActivationClaims.ExpectedPrefixes", "AuthorizationRequestClaims.ExpectedPrefixes", "AuthorizationResponseClaims.ExpectedPrefixes", "GenericClaims.ExpectedPrefixes", "loadClaims", "ClaimsData.verify", "parseHeaders", "Decode", "v1OperatorClaims.migrateV1", "v1UserClaims.migrateV1", "v1ActivationClaims.migrateV1", "SigningKeys.Add", "v1AccountClaims.migrateV1", "UserClaims.Encode", "ActivationClaims.Encode", "OperatorClaims.Encode", "AccountClaims.Encode", "GenericClaims.Encode", "AuthorizationRequestClaims.Encode", "AuthorizationResponseClaims.Encode", "OperatorClaims.updateVersion", "AccountClaims.updateVersion", "UserClaims.updateVersion", "ActivationClaims.updateVersion", "AuthorizationRequestClaims.updateVersion", "AuthorizationResponseClaims.updateVersion", "DecodeOperatorClaims", "DecodeAccountClaims", "DecodeUserClaims", "DecodeAuthorizationRequestClaims", "DecodeAuthorizationResponseClaims", "UserScope.ValidateScopedSigner", "NewUserClaims", "UserClaims.SetScoped",
 	},
 	"V1": {
 		"Subject.HasWildCards", "Subject.IsContainedIn", "cleanSubject",
@@ -245,7 +245,7 @@ var nilableElems = map[string]bool{"Export": true, "Import": true}
 // opaqueFnsV1: additionally opaque in the v1compat package only
 var opaqueFnsV1 = map[string]bool{"parseHeaders": true}
 
-var opaqueFns = map[string]bool{"parseClaims": true, "ClaimsData.encode": true, "decodeString": true, "loadOperator": true, "loadAccount": true, "loadUser": true, "loadActivation": true, "loadAuthorizationRequest": true, "loadAuthorizationResponse": true, "DecodeActivationClaims": true, "RenamingSubject.ToSubject": true}
+var opaqueFns = map[string]bool{"UserClaims.HasEmptyPermissions": true, "parseClaims": true, "ClaimsData.encode": true, "decodeString": true, "loadOperator": true, "loadAccount": true, "loadUser": true, "loadActivation": true, "loadAuthorizationRequest": true, "loadAuthorizationResponse": true, "DecodeActivationClaims": true, "RenamingSubject.ToSubject": true}
 
 // foreignOpaque: functions of other packages that translated code may call; each becomes a field of `Opq`
 // (name, Lean type of the field, and how a two-value result is read)
@@ -709,6 +709,22 @@ func (c *fnCtx) callArgs(call *ast.CallExpr, fi *fnInfo) []ast.Expr {
 	return append(args, call.Args...)
 }
 
+// isNowChain: exactly `time.Now()` or `time.Now().UTC()`
+func isNowChain(e ast.Expr) bool {
+	call, ok := e.(*ast.CallExpr)
+	if !ok || len(call.Args) != 0 {
+		return false
+	}
+	se, ok := call.Fun.(*ast.SelectorExpr)
+	if !ok {
+		return false
+	}
+	if id, ok := se.X.(*ast.Ident); ok && id.Name == "time" && se.Sel.Name == "Now" {
+		return true
+	}
+	return se.Sel.Name == "UTC" && isNowChain(se.X)
+}
+
 func usesTimeNow(n ast.Node) bool {
 	found := false
 	ast.Inspect(n, func(m ast.Node) bool {
@@ -803,6 +819,12 @@ func (c *fnCtx) expr(e ast.Expr) ex {
 			}
 			if _, isI := c.g.ifaceOf(t); isI {
 				return ex{"none", false} // a nil interface value
+			}
+			if _, isS := t.Underlying().(*types.Slice); isS {
+				return ex{"([] : " + c.g.leanType(t)[1:len(c.g.leanType(t))-1] + ")", false} // a nil slice is the empty list
+			}
+			if _, isM := t.Underlying().(*types.Map); isM {
+				return ex{"none", false} // a nil map
 			}
 			unsup("bare nil")
 		}
@@ -1161,6 +1183,9 @@ func (c *fnCtx) composite(x *ast.CompositeLit) ex {
 				name = u.Field(i).Name()
 				v = el
 			}
+			if c.isNilExpr(v) {
+				continue // an explicit nil is the zero value of the field
+			}
 			e := c.expr(v)
 			if e.m {
 				unsup("partial expression in composite literal")
@@ -1315,8 +1340,11 @@ func (c *fnCtx) call(x *ast.CallExpr) ex {
 		}
 		// time.Time.Unix() on a modelled time value; time.Now().UTC().Unix()
 		if se.Sel.Name == "Unix" && len(x.Args) == 0 {
-			if usesTimeNow(se.X) {
+			if isNowChain(se.X) {
 				return ex{"now", false}
+			}
+			if usesTimeNow(se.X) {
+				unsup("arithmetic on time.Now()")
 			}
 			if c.g.leanType(c.typeOf(se.X)) == "Int" {
 				return c.expr(se.X)
@@ -2309,23 +2337,33 @@ func (c *fnCtx) assign(b *block, x *ast.AssignStmt) {
 	if len(x.Lhs) >= 2 && len(x.Rhs) == 1 {
 		if call, ok := x.Rhs[0].(*ast.CallExpr); ok {
 			if fi := c.g.callee(call); fi != nil && fi.fd != nil && len(fi.results) == len(x.Lhs) {
-				for _, m := range fi.mutated {
+				var targets []ast.Expr
+				cargs := c.callArgs(call, fi)
+				for i, m := range fi.mutated {
 					if m {
-						unsup("multi-result call to a function that writes through a parameter")
+						targets = append(targets, cargs[i])
 					}
 				}
 				app := c.callFn(call, fi)
 				c.tmpN++
 				tmp := fmt.Sprintf("__r%d", c.tmpN)
 				b.add("let %s ← %s", tmp, app.s)
-				for i, l := range x.Lhs {
+				total := len(targets) + len(x.Lhs)
+				projAt := func(k int) string {
 					pr := tmp
-					for j := 0; j < i; j++ {
+					for j := 0; j < k; j++ {
 						pr += ".2"
 					}
-					if i < len(x.Lhs)-1 {
+					if k < total-1 {
 						pr += ".1"
 					}
+					return pr
+				}
+				for k, t := range targets {
+					c.store(b, t, projAt(k))
+				}
+				for i, l := range x.Lhs {
+					pr := projAt(len(targets) + i)
 					if id, ok := l.(*ast.Ident); ok && id.Name != "_" && x.Tok == token.DEFINE {
 						if o := c.g.p.TypesInfo.Defs[id]; o != nil {
 							if _, isI := c.g.ifaceOf(o.Type()); isI {
